@@ -170,8 +170,11 @@ def run_pair(kinds, seqs, ctx, solo=None, transport='udp'):
             ats[self.i](when, sock, item)
     for i, d in enumerate(devs):
         d.kern = KProxy(i)
-    port = 502 if transport == 'tcp' else 8899
-    invs = [world.FAMILIES[f](HOSTS[i], port, 0, 1, 0) for i, f in enumerate(fams)]
+    ports = [502 if (transport == 'tcp' or k.endswith('tcp')) else 8899 for k in kinds]
+    invs = [world.FAMILIES[f](HOSTS[i], ports[i], 0x11 if kinds[i].endswith('addr') else 0, 1, 0) for i, f in enumerate(fams)]
+    for i, k in enumerate(kinds):
+        if k.endswith('addr'):
+            devs[i].unit = 0x11
     results = [[], []]
 
     async def runner(i):
@@ -199,7 +202,7 @@ def run_pair(kinds, seqs, ctx, solo=None, transport='udp'):
     hang = st == 'hang'
     obs = []
     for i in (0, 1):
-        reqs = [(d[2:] if transport == 'tcp' else d).hex() for _, _, d in devs[i].sent]
+        reqs = [(d[2:] if ports[i] == 502 else d).hex() for _, _, d in devs[i].sent]
         outs = [(r[0], r[1], r[2]) for r in results[i]]
         after = [(r[0], r[1], snap(r[3]) if r[1] == 'ok' else r[2]) for r in results[i]]
         obs.append(dict(requests=reqs, results=outs, after=after))
@@ -265,7 +268,7 @@ def job(j):
 
 
 PAIRS = [('ET', 'ET'), ('ET745', 'ET'), ('ETbad', 'ET745'), ('ETnobat', 'ET'), ('ETv1', 'ET'), ('ETrej', 'ET'),
-         ('DT', 'DT1'), ('DTrej', 'DT'), ('DT1', 'DT1'), ('ES', 'ESv2'), ('ETfrag', 'ETfrag'), ('ETfrag', 'DT'), ('ET', 'ESv2'), ('ET', 'DT'), ('ES', 'ES'), ('ETv1', 'ES'), ('ET745', 'ESv2')]
+         ('DT', 'DT1'), ('DTrej', 'DT'), ('DT1', 'DT1'), ('ES', 'ESv2'), ('ETfrag', 'ETfrag'), ('ETfrag', 'DT'), ('ET', 'ETtcp'), ('ET', 'ETaddr'), ('ET', 'ESv2'), ('ET', 'DT'), ('ES', 'ES'), ('ETv1', 'ES'), ('ET745', 'ESv2')]
 
 
 def run(tier, seed, rep):
